@@ -220,10 +220,11 @@ def one(case):
     try:
         with warnings.catch_warnings():
             warnings.simplefilter("ignore")
+            dflt = case.get("defaults", True)
             if ch == "object":
-                p.parse_object(copy.deepcopy(cfg))
+                p.parse_object(copy.deepcopy(cfg), defaults=dflt)
             elif ch == "string":
-                p.parse_string(json.dumps(cfg))
+                p.parse_string(json.dumps(cfg), defaults=dflt)
             elif ch == "argvcfg":
                 p.parse_args(["--cfg=" + json.dumps(cfg)])
             elif ch == "envcfg":
